@@ -8,10 +8,12 @@ type ReplayFn = fn(&Ctx, &str, &serde_json::Value);
 
 fn table() -> Vec<(&'static str, &'static str, RunFn, ReplayFn)> {
     vec![
+        ("C03", "exploration", props::c03::run, props::c03::replay),
         ("C04", "exploration", props::c04::run, props::c04::replay),
         ("C07", "exploration", props::c07::run, props::c07::replay),
         ("C08", "exploration", props::c08::run, props::c08::replay),
         ("C09", "exploration", props::c09::run, props::c09::replay),
+        ("C10", "exploration", props::c10::run, props::c10::replay),
         ("C13", "exploration", props::c13::run, props::c13::replay),
         ("C14", "exploration", props::c14::run, props::c14::replay),
         ("C18", "exploration", props::c18::run, props::c18::replay),
